@@ -438,7 +438,7 @@ func (e *Engine) exprKey(v ssa.Value, depth int) string {
 			return b.Name() + "()"
 		}
 		if h := x.Common().StaticCallee(); h != nil {
-			return h.Name() + "()"
+			return load.BaseName(h) + "()"
 		}
 		return "call"
 	case *ssa.Extract:
